@@ -82,8 +82,12 @@ Definition is_tuple_cls (c : pystr) : bool := match classify c with CTuple => tr
 Definition is_anyof_cls (c : pystr) : bool := match classify c with CMulti MAnyOf => true | _ => false end.
 Definition is_coll_cls (c : pystr) : bool :=      (* Array, Deque, Set, ImmutableSet: Cls[T] = Cls(items=T) *)
   match classify c with CSeq _ | CSet _ => true | _ => false end.
+Definition is_one_item_cls (c : pystr) : bool :=  (* ... and Tuple: Tuple[T] = Tuple(items=T) *)
+  is_coll_cls c || is_tuple_cls c.
 
-(* marker for "the class statement succeeds but the Field object is malformed" (Tuple.items = [<class>]) *)
+(* marker for "the class statement succeeds but the Field object is malformed" (an un-instantiated Field class
+   among Tuple.items: what Tuple(items=<one Field class>) produced before its repair; the model produces it nowhere,
+   the harness still recognises such an object should it ever be observed) *)
 Definition defective : exn := OtherExn (s2p "defective:Tuple.items=[class]").
 (* marker for "the annotation is silently ignored: the class has no such field" *)
 Definition ignored : exn := OtherExn (s2p "annotation-ignored").
@@ -130,8 +134,7 @@ Definition construct (c : pystr) (it : items_arg) (sz : sizec) (uniq : bool) (ad
       end
   | CTuple =>
       match it with
-      | IOne (FVCls _) => Raise defective           (* Tuple.__init__: `self.items = [items]` keeps the class *)
-      | IOne (FVInst f) => Ok (FTuple [f] uniq)
+      | IOne v => f <- inst v ;; Ok (FTuple [f] uniq)     (* Tuple.__init__: a Field class is instantiated *)
       | IMany l => fs <- mapM inst l ;; Ok (FTuple fs uniq)
       end
   | CMap =>
@@ -404,10 +407,6 @@ Definition or_right (s : tyexpr) : bool :=
 
 Definition union_written (l : list tyexpr) : bool :=
   match mapM pyeval l with Ok objs => keeps_as_written objs | Raise _ => false end.
-
-(* a generic whose origin maps to Tuple with exactly one argument: Tuple(items=<class>) (defective) *)
-Definition single_tuple (o : pystr) (n : nat) : bool :=
-  match convert_basic o with Some c => is_tuple_cls c && Nat.eqb n 1 | None => false end.
 
 Definition evals_none (s : tyexpr) : bool := match pyeval s with Ok ONone => true | _ => false end.
 Definition no_none (l : list tyexpr) : bool := negb (existsb evals_none l).
